@@ -36,6 +36,8 @@ pub struct Universe {
     pub send_additional: bool,
     /// servers follow CNAMEs inside their own zones within one reply
     pub chase_in_reply: bool,
+    /// AAAA before A in the additional section of referrals
+    pub v6_glue_first: bool,
     pub description: String,
     /// a recursive server (answers every question with the truth, RA set)
     pub forwarder: Option<IpAddr>,
@@ -249,6 +251,9 @@ impl Universe {
                                     }
                                 }
                             }
+                        }
+                        if self.v6_glue_first {
+                            msg.additional.sort_by_key(|r| r.rtype_with_data.rtype() != RecordType::AAAA);
                         }
                         msg.authority.extend(ns);
                     }
